@@ -192,6 +192,15 @@ ASSUMPTIONS = [
     "(FillRequestSeq._reset) do not touch the statement; Split going on filling a branch after LenaStopFill (mutant "
     "split.py:400 break->continue) concerns raising elements, about which the statement is silent — the correspondence "
     "reports it (no oracle reference for an element that stores a value and then refuses it)",
+    "deep copies (seed C16-K, judged inside the statement: a copy.deepcopy of an adapter / FillRequestSeq is an adapter / "
+    "sequence of the quantifier's configurations, and lena makes such copies itself — SplitIntoBins, MapBins): the copy "
+    "is driven (run, two runs, fill/request history; copied fresh or after a first run) and judged by the sentences like "
+    "any object; in addition its element, not the original's, must be the one that is called, and the original run "
+    "afterwards yields its own blocks.  The test element's methods are bound methods and the element defines "
+    "__deepcopy__ (an element built the same way with a deep copy of the state), as an instance of an ordinary class "
+    "would behave.  The Lean model has values, not objects: a deep copy is the same state value, so the copy cases "
+    "use the existing driver ops unchanged (no new theorem: sharing between objects cannot be expressed in the model); "
+    "deep copies of a FillRequestSeq driven by fill/request (`seqops`) and of Split are not generated",
 ]
 RULE = ("thorough, exhaustive: FillRequest.__init__ for every subset of {run,fill,request,compute,reset} x reset in "
         "{None,True,False} x buffer_input,buffer_output in {None,True,False}^2 x yield_on_remainder x bufsize in {-1,0,1,3}; "
@@ -237,6 +246,11 @@ RULE = ("thorough, exhaustive: FillRequest.__init__ for every subset of {run,fil
         "sequence and of a fresh identical adapter for every case. "
         "Every run case hands over a counting iterator: the number of values taken when each result is yielded is compared "
         "with the event model and bounded by the oracle. "
+        "Deep copies (copy.deepcopy of the adapter / FillRequestSeq, driven instead of the object built): run for every "
+        "wrapped kind x reset x bufsize 1..3 x flags x flows 0,1,2,3,5,7 x state-changing request, copied fresh (one run, "
+        "two runs) and after a first run of the original; every request schedule of flows 0..4 on a fresh copy; the "
+        "original's element must not be called and the original is run afterwards (quick: a seeded 16% / 30% sample; "
+        "also 20% of the random run/ops dimension cases). "
         "Non-trivial: at least one result yielded or an exception.")
 CASE_TIMEOUT = 5
 
